@@ -528,9 +528,13 @@ fn find_mapped_expr_id_from_token(
     token: &MySyntaxToken,
     index: &HirResultsIndex,
 ) -> Option<hir::ExprId> {
+    // Besides expression nodes: the variable of a shorthand field (`Point { x }`) is recorded
+    // under the field node, the only node it has.
     let mut current = token.parent();
     while let Some(node) = current {
-        if cst::nodes::Expr::can_cast(node.kind()) {
+        if cst::nodes::Expr::can_cast(node.kind())
+            || node.kind() == MySyntaxKind::STRUCT_LITERAL_FIELD
+        {
             let ptr = MySyntaxNodePtr::new(&node);
             if let Some(id) = index.expr_id(&ptr) {
                 return Some(id);
@@ -547,7 +551,9 @@ fn find_mapped_pat_id_from_token(
 ) -> Option<hir::PatId> {
     let mut current = token.parent();
     while let Some(node) = current {
-        if cst::nodes::Pattern::can_cast(node.kind()) {
+        if cst::nodes::Pattern::can_cast(node.kind())
+            || node.kind() == MySyntaxKind::STRUCT_PATTERN_FIELD
+        {
             let ptr = MySyntaxNodePtr::new(&node);
             if let Some(id) = index.pat_id(&ptr) {
                 return Some(id);
